@@ -10,6 +10,11 @@ from mirsym import (Agg, Bool, EnumV, FnV, Int, Lazy, ListV, Opaque, Ref, Str, U
 from common import Inconclusive
 
 
+def meth_name(callee):
+    """last path segment with turbofish generics removed: `std::cmp::max::<usize>` -> `max`"""
+    return strip_generics(callee).split("::")[-1]
+
+
 def deref_val(e, st, v):
     """Follow references to the value they point to."""
     while isinstance(v, Ref):
@@ -100,14 +105,14 @@ def s_from_residual(e, st, callee, args, dty):
 
 def s_unwrap(e, st, callee, args, dty):
     v = args[0]
-    if "Result" in callee.split("::unwrap")[0].split("::expect")[0]:
+    if re.match(r"^(std::result::|core::result::)?Result", callee):
         return [(c, p if ok else "diverge") for c, ok, p in result_variants(e, st, v, dty)]
     return [(c, p if some else "diverge") for c, some, p in option_variants(e, st, v, dty)]
 
 
 def s_is_some(e, st, callee, args, dty):
     v = deref_val(e, st, args[0])
-    want = 1 if callee.endswith(("is_some", "is_err")) else 0
+    want = 1 if meth_name(callee) in ("is_some", "is_err") else 0
     if isinstance(v, EnumV):
         return Bool(z3.BoolVal(v.idx == want))
     return Bool(discr_of(e, st, v) == want)
@@ -166,7 +171,7 @@ CMP = {"lt": "Lt", "le": "Le", "gt": "Gt", "ge": "Ge", "eq": "Eq", "ne": "Ne"}
 
 def s_cmp(e, st, callee, args, dty):
     """PartialOrd / PartialEq on integers and on derived single-field newtypes"""
-    meth = callee.split("::")[-1]
+    meth = meth_name(callee)
     a, b = newtype_int(e, st, args[0]), newtype_int(e, st, args[1])
     if a is None or b is None:
         av, bv = deref_val(e, st, args[0]), deref_val(e, st, args[1])
@@ -192,7 +197,9 @@ def s_cmp(e, st, callee, args, dty):
 
 
 def s_minmax(e, st, callee, args, dty):
-    meth = callee.split("::")[-1]
+    meth = meth_name(callee)
+    if meth not in ("max", "min"):
+        return NotImplemented
     a, b = newtype_int(e, st, args[0]), newtype_int(e, st, args[1])
     if a is None or b is None:
         return NotImplemented
@@ -319,7 +326,7 @@ BASE = {
     r"^<.* as (std::cmp::)?Partial(Ord|Eq)(<.*>)?>::(lt|le|gt|ge|eq|ne)$": s_cmp,
     r"^<.* as (std::cmp::)?Ord>::(max|min)$": s_minmax,
     r"^(std::cmp::|core::cmp::)?(max|min)$": s_minmax,
-    r"^(usize|u64|u32|u8|u16|u128)::saturating_sub$": s_saturating_sub,
+    r"^(core::num::|(usize|u64|u32|u8|u16|u128)::)saturating_sub$": s_saturating_sub,
     r"^must_use$": s_must_use,
     r"^(core::fmt::rt::)?Argument::new_(display|debug)$": s_fmt_opaque,
     r"^(std::fmt::|core::fmt::)?Arguments::new(_const)?$": s_fmt_opaque,
